@@ -192,11 +192,11 @@ PROPS = {
         'corr': 'corr.loc (CorrLoc.check_loc) on the lifecycle profile; judges: dispatch against the index-free specification, and "every operation on a disabled location reports an error"',
         'rule': 'loc-lifecycle: histories of 20-45 ops interleaving AddRule / overwrite / RemRule / EnableRule(true|false) / reload / location !enabled toggles with events, both state kinds, a parent in 1 of 4 cases; '
                 'non-trivial = at least 3 distinct (op, outcome) kinds; distinct by hash of inputs',
-        'refuted': ['statesize_ignores_enabled_counterexample (D36)', 'disable_then_not_enabled_counterexample', 'enable_is_not_per_id_counterexample'],
+        'refuted': ['disable_then_not_enabled_counterexample', 'enable_is_not_per_id_counterexample'],
         'level_text': 'Coq theorems over the location model: children_exact_in (a candidate fires iff enabled here and its when matches, with exactly the match bindings), disable_then_not_enabled, enable_then_enabled, disable_is_per_id, '
-                      'flag_dies_with_rule, readd_starts_enabled, flag_survives_reload, disabled_location_refuses (eleven gated methods), disabled_no_rule_fires; with C01 (dispatch_exact) and C07 (expiry) they give the fires-iff characterisation. '
+                      'flag_dies_with_rule, readd_starts_enabled, flag_survives_reload, disabled_location_refuses (all twelve gated methods, StateSize included after the D36 repair), disabled_no_rule_fires; with C01 (dispatch_exact) and C07 (expiry) they give the fires-iff characterisation. '
                       'Tie to the code: lifecycle histories replayed op by op, dispatch judged against the index-free specification, and every operation on a disabled location judged to fail.',
-        'level_note': 'StateSize is not gated by the enabled property (known finding D36). Two corner refutations (rule ids that collide with property-fact ids) are kept as lemmas in props/C10_open.v.',
+        'level_note': 'StateSize was not gated by the enabled property (D36, found by this check, repaired in /repo). Two corner refutations (rule ids that collide with property-fact ids) are kept as lemmas in props/C10_open.v.',
         'technique': 'Coq proofs over the location model (gates, property facts, cascade) + differential replay of lifecycle histories',
         'assumptions': ['sequential histories'],
     },
@@ -296,7 +296,7 @@ PROPS = {
         'level_text': 'Coq theorems over the executable model of CachedLocations (expire/Open/Release, CachedLocation.Get, existence check, !cacheTTL): cache_transparent (every configuration, every history: same final stored state and success pattern as the cache-free system, never a stale instance), '
                       'results_independent_of_ttl, existence_check_no_create, forever_loads_once, never_reloads_every_request, and for concurrent first requests over all schedules single_load_with_reuse (the protocol as repaired in /repo; the refutation for the earlier code is kept: D41). '
                       'Together with C06 (reload_same_facts: an instance loaded from storage is the live location) this gives transparency of results. Tie to the code: three real Systems with different TTLs on the same history, compared with each other and with the location model.',
-        'level_note': 'Known findings: D42 (ClearLocation erases the created marker: later results depend on the TTL), D33 (hook-rejected add on the linear state leaves a record: visible after reload, hence TTL-dependent), D41 (single load could be violated under a specific interleaving; repaired in /repo, fix: commit). '
+        'level_note': 'Known findings: D33 (hook-rejected add on the linear state leaves a record: visible after reload, hence TTL-dependent), D41 (single load could be violated under a specific interleaving; repaired in /repo, fix: commit). '
                       'GetLastUpdatedMem, location stats and controls are in-memory by design and are outside the compared surface.',
         'technique': 'Coq refinement of the cache layer to a cache-free specification over all histories + exhaustive-schedule invariant for concurrent opens + three-way differential of real Systems',
         'assumptions': ['sequential request histories for the transparency clause', 'a finite TTL requires a persistent cron service (NewSystem enforces it; the harness supplies a recording one)'],
